@@ -58,9 +58,13 @@ Pattern:
 			return false, err
 		}
 		if star {
-			// Look for match skipping i+1 bytes.
-			for i := 0; i < len(name); i++ {
-				t, ok, err := matchChunk(chunk, name[i+1:])
+			// Look for match skipping one more character of name at a time.
+			// Skipping single bytes would resume matching in the middle of a
+			// multi-byte character.
+			for i := 0; i < len(name); {
+				_, width := utf8.DecodeRuneInString(name[i:])
+				i += width
+				t, ok, err := matchChunk(chunk, name[i:])
 				if ok {
 					// if we're the last chunk, make sure we exhausted the name
 					if len(pattern) == 0 && len(t) > 0 {
